@@ -67,6 +67,19 @@ def hygiene():
 ALLOWED_AXIOMS = set()   # the development is axiom-free; names of stdlib axioms would go here
 
 
+def coqchk_check(prop):
+    """thorough tier: re-check the compiled property file and everything it depends on with the
+    independent checker; its context summary must list no axiom and no bypassed check"""
+    rc, out = sh(["timeout", "3000", "coqchk", "-silent", "-o", "-Q", COQ, "TucModel", "TucModel.Properties." + prop],
+                 cwd=COQ, check=False)
+    tail = out[-1500:]
+    ok = (rc == 0 and re.search(r"Axioms:\s*<none>", out) is not None
+          and re.search(r"type-in-type:\s*<none>", out) is not None
+          and re.search(r"unsafe \(co\)fixpoints:\s*<none>", out) is not None
+          and re.search(r"positivity is assumed:\s*<none>", out) is not None)
+    return ok, tail
+
+
 def coq_check(prop):
     """Returns (ok, info).  info: obligations, discharged, axioms, log tail."""
     info = {"obligations": 0, "discharged": 0, "axioms": [], "theorems": [], "log": ""}
@@ -145,6 +158,14 @@ def main():
     # ---- 1. Coq
     hy = hygiene()
     ok_coq, cinfo = coq_check(prop)
+    if ok_coq and tier == "thorough":
+        ok_chk, chk_tail = coqchk_check(prop)
+        cinfo["coqchk"] = "Axioms: <none>; no type-in-type, unsafe fixpoint or assumed positivity" if ok_chk else chk_tail
+        if not ok_chk:
+            ok_coq = False
+            cinfo["log"] = "coqchk: " + chk_tail
+            cinfo["failed_file"] = "coqchk Properties/%s.vo" % prop
+            cinfo["discharged"] = 0
     if hy:
         ok_coq = False
         cinfo["log"] += "\nhygiene: " + "; ".join(hy[:5])
@@ -290,6 +311,7 @@ def main():
         "trusted_base": props.TRUSTED,
         "theorems": cinfo["theorems"],
         "axioms_reported": cinfo["axioms"] or ["Closed under the global context"],
+        "coqchk": cinfo.get("coqchk", "not run in the quick tier (thorough: coqchk -o on Properties/%s.vo and its dependencies)" % prop),
         "evaluations": len(cases),
         "distinct_nontrivial": len(nontrivial),
         "rule": P["rule"],
